@@ -152,7 +152,8 @@ class LeanBuild:
                 pass
         p = _run(["lake", "env", "lean", audit], cwd=LEAN_DIR)
         if p.returncode != 0:
-            raise InfraError("axiom audit failed:\n" + (p.stdout + p.stderr)[-3000:])
+            errs = [l for l in (p.stdout + p.stderr).split("\n") if "error" in l]
+            raise InfraError("axiom audit failed:\n" + "\n".join(errs[:12]))
         out = p.stdout
         axioms = {}
         for m in re.finditer(r"'([^']+)' depends on axioms: \[([^\]]*)\]", out):
